@@ -44,7 +44,7 @@ Print Assumptions C04_weaken_rejected.
     precondition for [f], the overriding class still demands the other base's precondition. *)
 Definition c1 : contract := {| cid := 1; cargs := []; cmandatory := []; ckind_ := CKPlain; cerror := ENone; clambda := false |}.
 Definition sig0 : sig := {| posonly := []; poskw := [{| pname := "self"; pdefault := None |}]; varpos := None; kwonly := []; varkw := None |}.
-Definition mf (ds : list deco) : mdecl := {| md_name := "f"; md_kind := MPlain; md_async := false; md_sig := sig0; md_decos := ds; md_inherit := false |}.
+Definition mf (ds : list deco) : mdecl := {| md_name := "f"; md_kind := MPlain; md_async := false; md_sig := sig0; md_decos := ds; md_inherit := None |}.
 Definition witness : list defop :=
   [DefClass {| cd_bases := []; cd_dbc := true; cd_members := [mf [DRequire c1 true]]; cd_invs := [] |};   (* P *)
    DefClass {| cd_bases := []; cd_dbc := true; cd_members := [mf []]; cd_invs := [] |};                    (* Q: f accepts all *)
